@@ -44,6 +44,10 @@ LOOPS = {
     "string-loop": "var str = ''; for (;;) { str = str + 'x'; if (str.length > 50) { str = '' } }",
     "callback-loop": "for (;;) { [1, 2, 3].forEach(function (x) { return x }) }",
     "regex-loop": "for (;;) { /a+b/.test('aaab') }",
+    # the work is spread over very many short-lived nested activations, none of which runs long by itself
+    "eval-tree-recursion": "tr = function (d) { if (d == 0) return 0; eval('tr(' + (d - 1) + ');tr(' + (d - 1) + ')'); return 0 }; tr(30);",
+    "Function-tree-recursion": "tf = function (d) { if (d == 0) return 0; var g = new Function('d', 'tf(d - 1); tf(d - 1)'); g(d); return 0 }; tf(30);",
+    "callback-tree-recursion": "function tc(d) { if (d == 0) return 0; [1, 2].forEach(function () { tc(d - 1) }); return 0 } tc(30);",
 }
 WRAPS = {
     "plain": "{L}",
